@@ -190,3 +190,31 @@ fn c02_o6_set_never_change_field_panics() {
     kani::cover!(true, "MUST-BE-UNREACHABLE: set_field on a NEVER_CHANGE field returned");
     std::mem::forget(w);
 }
+
+/// The ingredients a `#[salsa::input]` with two fields registers: struct at `base`, fields at `base+1`, `base+2`.
+pub(crate) fn vin_ingredients() -> Vec<Box<dyn crate::ingredient::Ingredient>> {
+    let base = IngredientIndex::new(0);
+    vec![
+        Box::new(IngredientImpl::<VIn>::new(base)),
+        Box::new(FieldIngredientImpl::<VIn>::new(base, 0)),
+        Box::new(FieldIngredientImpl::<VIn>::new(base, 1)),
+    ]
+}
+
+/// Allocate one `VIn` value in `zalsa`'s table (page-backed, no hashing).
+pub(crate) fn alloc_vin(zalsa: &Zalsa, revisions: [Revision; 2], durabilities: [Durability; 2]) -> Id {
+    let types = Arc::new(MemoTableTypes::default());
+    let page = zalsa.table().push_page::<Value<VIn>>(IngredientIndex::new(0), types.clone());
+    // SAFETY: single-threaded; we are the unique writer of the page.
+    match unsafe {
+        zalsa.table().page::<Value<VIn>>(page).allocate(page, |_| Value::<VIn> {
+            fields: (1, 2),
+            revisions,
+            durabilities,
+            memos: MemoTable::new(&types),
+        })
+    } {
+        Ok((id, _)) => id,
+        Err(_) => panic!("fresh page is full"),
+    }
+}
